@@ -15,40 +15,48 @@ Probe(kind, decls, stmts, expect, note) ==
 
 U == Var("u")
 DefU(v) == Def("u", TRUE, "", IntL(v))
+\* the forms of a use of an Int-valued name: printing needs a member lookup (__str__) on the name, the other forms do not
 Use(e) == PrintS(e)
+UseForms == {"print", "typed-def", "untyped-def", "arg", "operand"}
+UseF(form, e) == CASE form = "print" -> PrintS(e) [] form = "typed-def" -> Def("r_use", TRUE, "Int", e) [] form = "untyped-def" -> Def("r_use", TRUE, "", e)
+                   [] form = "arg" -> Expr(Call("takes_int", <<e>>)) [] form = "operand" -> Def("r_use", TRUE, "Int", Bin("+", e, IntL(1)))
 R01 == Range(IntL(0), IntL(1), FALSE, Absent)
 Raw(s) == [k |-> "raw", v |-> s]
 
 \* pattern name, statements, does a definition reach the use on every path (TRUE/FALSE/"either")
-VarPatterns == {
-   <<"never-defined",      <<Use(U)>>,                                                         "reject">>,
-   <<"defined-later",      <<Use(U), DefU(1)>>,                                                "reject">>,
-   <<"defined-before",     <<DefU(1), Use(U)>>,                                                "accept">>,
-   <<"then-only",          <<If(BoolL(TRUE), <<DefU(1)>>, <<>>), Use(U)>>,                      "reject">>,
-   <<"then-only-with-else",<<If(BoolL(TRUE), <<DefU(1)>>, <<Filler>>), Use(U)>>,                "reject">>,
-   <<"else-only",          <<If(BoolL(TRUE), <<Filler>>, <<DefU(1)>>), Use(U)>>,                "reject">>,
-   <<"both-branches",      <<If(BoolL(TRUE), <<DefU(1)>>, <<DefU(2)>>), Use(U)>>,               "either">>,
-   <<"used-inside-branch", <<If(BoolL(TRUE), <<DefU(1), Use(U)>>, <<>>)>>,                      "accept">>,
-   <<"for-body",           <<For("i", R01, <<DefU(1)>>), Use(U)>>,                              "reject">>,
-   <<"loop-variable-after",<<For("i", R01, <<Filler>>), Use(Var("i"))>>,                        "reject">>,
-   <<"loop-variable-inside",<<For("i", R01, <<Use(Var("i"))>>)>>,                               "accept">>,
-   <<"while-body",         <<While(BoolL(FALSE), <<DefU(1)>>), Use(U)>>,                        "reject">>,
-   <<"match-arm-def",      <<Match(IntL(1), <<Arm(IntL(1), <<DefU(1)>>), Arm(Wild, <<Filler>>)>>), Use(U)>>, "reject">>,
-   <<"arm-binder-outside", <<Match(IntL(1), <<Arm(Var("n"), <<Use(Var("n"))>>)>>), Use(Var("n"))>>,          "reject">>,
-   <<"arm-binder-inside",  <<Match(IntL(1), <<Arm(Var("n"), <<Use(Var("n"))>>)>>)>>,                         "accept">>,
-   <<"comprehension-variable-outside", <<Def("l", TRUE, "", Raw("[x + 1 | x in [1, 2]]")), Use(Var("x"))>>,  "reject">>,
+VarPatterns(form) == {
+   <<"never-defined",      <<UseF(form, U)>>,                                                         "reject">>,
+   <<"defined-later",      <<UseF(form, U), DefU(1)>>,                                                "reject">>,
+   <<"defined-before",     <<DefU(1), UseF(form, U)>>,                                                "accept">>,
+   <<"then-only",          <<If(BoolL(TRUE), <<DefU(1)>>, <<>>), UseF(form, U)>>,                      "reject">>,
+   <<"then-only-with-else",<<If(BoolL(TRUE), <<DefU(1)>>, <<Filler>>), UseF(form, U)>>,                "reject">>,
+   <<"else-only",          <<If(BoolL(TRUE), <<Filler>>, <<DefU(1)>>), UseF(form, U)>>,                "reject">>,
+   \* the same with the OTHER path taken at run time (an accepted program of this shape goes wrong: C04)
+   <<"then-only-else-taken", <<If(BoolL(FALSE), <<DefU(1)>>, <<Filler>>), UseF(form, U)>>,             "reject">>,
+   <<"else-only-then-taken", <<If(BoolL(FALSE), <<Filler>>, <<DefU(1)>>), UseF(form, U)>>,             "reject">>,
+   <<"both-branches",      <<If(BoolL(TRUE), <<DefU(1)>>, <<DefU(2)>>), UseF(form, U)>>,               "either">>,
+   <<"used-inside-branch", <<If(BoolL(TRUE), <<DefU(1), UseF(form, U)>>, <<>>)>>,                      "accept">>,
+   <<"for-body",           <<For("i", R01, <<DefU(1)>>), UseF(form, U)>>,                              "reject">>,
+   <<"loop-variable-after",<<For("i", R01, <<Filler>>), UseF(form, Var("i"))>>,                        "reject">>,
+   <<"loop-variable-inside",<<For("i", R01, <<UseF(form, Var("i"))>>)>>,                               "accept">>,
+   <<"while-body",         <<While(BoolL(FALSE), <<DefU(1)>>), UseF(form, U)>>,                        "reject">>,
+   <<"match-arm-def",      <<Match(IntL(1), <<Arm(IntL(1), <<DefU(1)>>), Arm(Wild, <<Filler>>)>>), UseF(form, U)>>, "reject">>,
+   <<"arm-binder-outside", <<Match(IntL(1), <<Arm(Var("n"), <<UseF(form, Var("n"))>>)>>), UseF(form, Var("n"))>>,          "reject">>,
+   <<"arm-binder-inside",  <<Match(IntL(1), <<Arm(Var("n"), <<UseF(form, Var("n"))>>)>>)>>,                         "accept">>,
+   <<"comprehension-variable-outside", <<Def("l", TRUE, "", Raw("[x + 1 | x in [1, 2]]")), UseF(form, Var("x"))>>,  "reject">>,
    <<"comprehension-variable-inside",  <<Def("l", TRUE, "", Raw("[x + 1 | x in [1, 2]]"))>>,                 "accept">>,
-   <<"handle-binder-outside", <<Handle(Def("a", TRUE, "Int", Call("p_raises", <<>>)), <<HArm("PErr", "err", <<Use(StrL("h")), Expr(IntL(0))>>)>>), Use(Var("err"))>>, "reject">>,
-   <<"handle-binder-inside",  <<Handle(Def("a", TRUE, "Int", Call("p_raises", <<>>)), <<HArm("PErr", "err", <<Use(Var("err")), Expr(IntL(0))>>)>>), Use(Var("a"))>>, "accept">>,
-   <<"handle-target-after",   <<Handle(Def("a", TRUE, "Int", Call("p_raises", <<>>)), <<HArm("PErr", "err", <<Expr(IntL(0))>>)>>), Use(Var("a"))>>, "accept">>,
+   <<"handle-binder-outside", <<Handle(Def("a", TRUE, "Int", Call("p_raises", <<>>)), <<HArm("PErr", "err", <<PrintS(StrL("h")), Expr(IntL(0))>>)>>), PrintS(Var("err"))>>, "reject">>,
+   <<"handle-binder-inside",  <<Handle(Def("a", TRUE, "Int", Call("p_raises", <<>>)), <<HArm("PErr", "err", <<PrintS(Var("err")), Expr(IntL(0))>>)>>), UseF(form, Var("a"))>>, "accept">>,
+   <<"handle-target-after",   <<Handle(Def("a", TRUE, "Int", Call("p_raises", <<>>)), <<HArm("PErr", "err", <<Expr(IntL(0))>>)>>), UseF(form, Var("a"))>>, "accept">>,
    <<"shadow-new-type-ok", <<DefU(1), Def("u", TRUE, "", StrL("s")), Def("r", TRUE, "Str", U)>>, "accept">>,
    <<"shadow-new-type-old",<<DefU(1), Def("u", TRUE, "", StrL("s")), Def("r", TRUE, "Int", U)>>, "reject">>,
    <<"self-reference",     <<Def("u", TRUE, "Int", Bin("+", U, IntL(1)))>>,                      "reject">>,
-   <<"nested-outer-visible", <<DefU(1), If(BoolL(TRUE), <<For("i", R01, <<Use(U)>>)>>, <<>>)>>,  "accept">> }
+   <<"nested-outer-visible", <<DefU(1), If(BoolL(TRUE), <<For("i", R01, <<UseF(form, U)>>)>>, <<>>)>>,  "accept">> }
 
 \* (the handled definition is annotated: a local whose type is inferred from a handle is not usable in a second branch today)
-PDecls == << Class("PErr", <<>>, <<Parent("Exception", <<>>)>>, <<>>, <<>>), Fun("p_raises", <<>>, "Int", <<"PErr">>, <<Raise("PErr", <<>>)>>) >>
-VarProbes == { Probe("def-" \o p[1], PDecls, p[2], p[3], [pattern |-> p[1], expected |-> p[3]]) : p \in VarPatterns }
+PDecls == << Class("PErr", <<>>, <<Parent("Exception", <<>>)>>, <<>>, <<>>), Fun("p_raises", <<>>, "Int", <<"PErr">>, <<Raise("PErr", <<>>)>>),
+            Fun("takes_int", <<Param("x", "Int", Absent)>>, "", <<>>, <<PrintS(StrL("t"))>>) >>
+VarProbes == UNION { { Probe("def-" \o p[1], PDecls, p[2], p[3], [pattern |-> p[1], expected |-> p[3], use |-> form]) : p \in VarPatterns(form) } : form \in UseForms }
 
 \* functions and globals (top level only)
 GlobalPatterns == {
@@ -82,7 +90,11 @@ FieldPatterns == {
    <<"assigned-all-arms",      "Int",  <<>>,  <<Match(IntL(0), <<Arm(IntL(0), <<SetF(1)>>), Arm(Wild, <<SetF(2)>>)>>)>>, "accept">>,
    <<"assigned-one-arm",       "Int",  <<>>,  <<Match(IntL(0), <<Arm(IntL(0), <<SetF(1)>>), Arm(Wild, <<Filler>>)>>)>>, "reject">>,
    <<"assigned-in-loop-only",  "Int",  <<>>,  <<For("i", R01, <<SetF(1)>>)>>,                      "reject">>,
-   <<"read-in-branch-before",  "Int",  <<C>>, <<If(Var("c"), <<ReadF>>, <<>>), SetF(1)>>,          "reject">> }
+   <<"read-in-branch-before",  "Int",  <<C>>, <<If(Var("c"), <<ReadF>>, <<>>), SetF(1)>>,          "reject">>,
+   \* an assignment to the same-named field of ANOTHER object does not initialise this one
+   <<"assigned-through-other-object", "Int", <<Param("o", "K", Absent)>>, <<FAssign(Var("o"), "fld", IntL(1))>>,          "reject">>,
+   <<"read-after-other-assigned",     "Int", <<Param("o", "K", Absent)>>, <<FAssign(Var("o"), "fld", IntL(1)), ReadF, SetF(2)>>, "reject">>,
+   <<"other-then-self-assigned",      "Int", <<Param("o", "K", Absent)>>, <<FAssign(Var("o"), "fld", IntL(1)), SetF(2), ReadF>>, "accept">> }
 FieldProbes == { Probe("field-" \o p[1], <<Class("K", <<>>, <<>>, <<Fld(p[2])>>, <<Init(p[3], p[4])>>)>>, <<Filler>>, p[5],
                        [pattern |-> p[1], expected |-> p[5]]) : p \in FieldPatterns }
 
